@@ -271,6 +271,8 @@ func errTag(err error) string {
 		return "err:noinstance"
 	case errors.Is(err, removeserver.ErrServerNotFound):
 		return "err:noserver"
+	case errors.Is(err, repositories.ErrInstanceNotFound):
+		return "err:instancenotfound"
 	case errors.Is(err, server.ErrInvalidQueryPort):
 		return "err:queryport"
 	}
@@ -436,10 +438,15 @@ func RunUC(opts world.Options, initSpec, clientSpec, eventSpec string) []string 
 	}
 	specs := strings.Split(clientSpec, ",")
 	clients := make([]func(p *world.Proc) string, len(specs))
+	lazy := make([]bool, len(specs))
 	for i, s := range specs {
+		if strings.HasPrefix(s, "@") { // lazy start: the use case begins at the first event naming it
+			lazy[i] = true
+			s = s[1:]
+		}
 		clients[i] = Client(s)
 	}
-	res := storeops.RunScheduledWrap(w, clients, strings.Split(eventSpec, ","), Wrap)
+	res := storeops.RunScheduledLazy(w, clients, lazy, strings.Split(eventSpec, ","), Wrap)
 	var calls []string
 	for _, t := range res.Trace {
 		parts := strings.SplitN(t, ":", 3)
